@@ -369,11 +369,17 @@ Proof. destruct a as [[y m] d], b as [[y' m'] d']. cbn [zt_eqb]. split; intro H.
   - inversion H; subst. rewrite !Z.eqb_refl. reflexivity.
 Qed.
 
+Lemma ires_eqb_spec a b : ires_eqb a b = true <-> a = b.
+Proof. destruct a as [x|], b as [y|]; cbn [ires_eqb]; split; intro H; try discriminate; try reflexivity.
+  - apply (list_eqb_spec bytes_eqb bytes_eqb_spec) in H. congruence.
+  - inversion H; subst. apply (list_eqb_spec bytes_eqb bytes_eqb_spec). reflexivity.
+Qed.
+
 Definition oracle_meaning (c : case) : Prop :=
   match c with
   | CNode _ name target _ _ _ dec rest => dec = DOk name target /\ rest = true
   | CTime ymd ymd' same => (in_years ymd = true -> ymd' = ymd /\ same = true) /\ in_years ymd' = true
-  | CBuild l (Some b) => strictly_sorted [] (map fst l) = true /\ b = render l
+  | CBuild l (Some b) dec => strictly_sorted [] (map fst l) = true /\ b = render l /\ dec = IOk (map fst l)
   | CSave l o1 o2 => o1 = o2 /\ forall b w, o1 = SOk b w ->
       strictly_sorted [] (map fst (kept_go None l)) = true /\ b = render (kept_go None l)
   | _ => True
@@ -388,7 +394,7 @@ Proof.
       * intros [H1 H2]. subst. split; [auto|exact E].
       * intros [H1 H2]. destruct (H1 eq_refl); subst; auto.
     + split; [intros H; split; [discriminate|exact H] | tauto].
-  - destruct obs as [b|]; [|tauto]. rewrite andb_true_iff, bytes_eqb_spec. tauto.
+  - destruct obs as [b|]; [|tauto]. rewrite !andb_true_iff, bytes_eqb_spec, ires_eqb_spec. tauto.
   - rewrite andb_true_iff, sres_eqb_spec. destruct obs1 as [b w| | |].
     + rewrite andb_true_iff, bytes_eqb_spec. split.
       * intros [H1 [H2 H3]]. split; [exact H1|]. intros b' w' Hb. inversion Hb; subst. auto.
@@ -399,9 +405,9 @@ Proof.
 Qed.
 
 (* the model's own outputs always satisfy the oracle *)
-Lemma model_ok_build l : check_C41 (CBuild l (build l)) = true.
+Lemma model_ok_build l : check_C41 (CBuild l (build l) (IOk (map fst l))) = true.
 Proof. cbn [check_C41]. rewrite build_spec. destruct (strictly_sorted [] (map fst l)); [|reflexivity].
-  rewrite bytes_eqb_refl. reflexivity. Qed.
+  rewrite bytes_eqb_refl. rewrite (proj2 (ires_eqb_spec _ _) eq_refl). reflexivity. Qed.
 
 Lemma model_ok_save l : check_C41 (CSave l (save l) (save l)) = true.
 Proof. cbn [check_C41]. rewrite (proj2 (sres_eqb_spec _ _) eq_refl). cbn [andb].
